@@ -2175,6 +2175,7 @@ extern int32 matrixSessionTicketLen(void);
 
 # ifdef USE_DTLS
 extern int32 dtlsChkReplayWindow(ssl_t *ssl, unsigned char *seq64);
+extern void dtlsResetReplayWindow(ssl_t *ssl);
 extern int32 dtlsWriteCertificate(ssl_t *ssl, int32 certLen,
                                   int32 lsize, unsigned char *c);
 extern int32 dtlsWriteCertificateRequest(psPool_t *pool, ssl_t *ssl, int32 certLen,
